@@ -19,7 +19,7 @@ EXPLANATION = (
     ' Added after seed round 3: (7) AttrSpec.colors recognises each depth by exactly the flag pair the setters store for it (masks folded to integers; only 88 is told by its mode flag); (8) the hN branch of the 256/88 parsers accepts exactly 0..colours-1 (bound folded, compared as an interval).'
     " Round 4: (9) the 256-colour gray ramp and cube step tables equal xterm's closed forms (8 + 10*i; 0, 95 + 40*(i-1))."
     ' Round 6: (13) SIB: every depth marker AttrSpec.__init__ puts into the packed value is reported by the colors property or cleared again in __init__ (fix 94a2129: a 2**24 spec without a 24-bit colour equals its rebuild).'
-    ' Round 7: (11) the '#rrggbb' fold of the 88-colour parser keeps positions 0, 1, 3, 5 (the high digit of each channel), evaluated from its constant slices; (14) ACCUM: the flags collected over the parts of a foreground description are only OR-ed into inside the loop.'
+    ' Round 7: (11) the '#rrggbb' fold of the 88-colour parser keeps positions 0, 1, 3, 5 (the high digit of each channel), evaluated from its constant slices; (14) ACCUM: the flags collected over the parts of a foreground description are only OR-ed into inside the loop; (15) __repr__ writes colors= for every depth whose marker selects its own parser (fix 14f26b0).'
 )
 NOT_DECIDED = "Nearest-entry correctness, idempotence of parse(describe(x)), RGB values - value-level facts; range-check raises in the describers depend on the stored value's range (covered only through the twin comparison)."
 ASSUMPTIONS = ["Range-check `raise ValueError(num)` in _color_desc_* is assumed unreachable for values the parsers produce (table entries with reason)."]
@@ -484,6 +484,54 @@ def rule_depth_markers(ctx: Ctx) -> RuleResult:
     return rr
 
 
+def rule_repr_depths(ctx: Ctx) -> RuleResult:
+    """__repr__ promises 'an executable python representation': the constructor's default depth reads a description
+    with the 256-colour parser, so a specification whose depth marker selects another parser (88, 2**24) must be
+    written with colors=.  Every marker depth of __init__ (`M * (colors == depth)`) is named by the test in __repr__
+    that adds the colors= argument (or the argument is added unconditionally).  Before fix 14f26b0 only 88 was:
+    eval(repr(AttrSpec('#123456', 'default', 2**24))) folded to '#135' at 256 colours."""
+    from ..consteval import fold_expr
+
+    p = ctx.p
+    rr = RuleResult("SIB", "C18.15", "AttrSpec.__repr__ writes colors= for every depth whose marker selects its own colour parser", floor=2)
+    init = p.func(f"{COMMON}.AttrSpec.__init__")
+    rp = p.func(f"{COMMON}.AttrSpec.__repr__")
+    mod = p.modules[COMMON]
+
+    def val(e):
+        try:
+            return fold_expr(p, mod, e)
+        except Exception:
+            return None
+
+    depths = []
+    for n in init.own_nodes():
+        if isinstance(n, ast.BinOp) and isinstance(n.op, ast.Mult) and isinstance(n.left, ast.Name) and isinstance(n.right, ast.Compare) and len(n.right.ops) == 1 and isinstance(n.right.ops[0], ast.Eq) and isinstance(n.right.left, ast.Name) and n.right.left.id in init.params:
+            depths.append((n.left.id, val(n.right.comparators[0])))
+    if len(depths) < 2 or any(d is None for _m, d in depths):
+        raise AnalysisError(f"AttrSpec.__init__: the depth markers were not found / not constant: {depths}")
+    def writes_colors(stmts):
+        return any(isinstance(x, ast.Constant) and isinstance(x.value, str) and "colors=" in x.value for st in stmts for x in ast.walk(st))
+    named = set()
+    uncond = writes_colors([st for st in rp.node.body if not isinstance(st, ast.If)])
+    for t in rp.own_nodes():
+        if isinstance(t, ast.If) and writes_colors(t.body):
+            for c in ast.walk(t.test):
+                if isinstance(c, ast.Compare) and len(c.ops) == 1 and "colors" in ast.unparse(c.left):
+                    if isinstance(c.ops[0], ast.Eq):
+                        named.add(val(c.comparators[0]))
+                    elif isinstance(c.ops[0], ast.In) and isinstance(c.comparators[0], (ast.Set, ast.Tuple, ast.List)):
+                        named |= {val(e) for e in c.comparators[0].elts}
+                    elif isinstance(c.ops[0], ast.NotIn) and isinstance(c.comparators[0], (ast.Set, ast.Tuple, ast.List)):
+                        named |= {d for _m, d in depths} - {val(e) for e in c.comparators[0].elts}
+    for m, d in depths:
+        ok = uncond or d in named
+        rr.inst(f"depth {d}", True, {"marker": m, "depth": d, "repr_writes_colors": ok})
+        if not ok:
+            rr.add(finding("SIB", rp, rp.node, f"__init__ reads colour descriptions with the parser selected by {m} when colors == {d}, but __repr__ writes colors= only for {sorted(x for x in named if x is not None)}: the printed expression is evaluated at the default depth and gives a different specification (eval(repr(spec)) != spec)", construct=f"repr omits colors={d}"))
+    return rr
+
+
 def run(ctx: Ctx):
     p = ctx.p
     c = p.cls(f"{COMMON}.AttrSpec")
@@ -503,6 +551,7 @@ def run(ctx: Ctx):
         rule_hash_eq(ctx),
         rule_tables(ctx),
         rule_depth_markers(ctx),
+        rule_repr_depths(ctx),
         rule_flags_accumulate(ctx),
         truthy.run_truthy(
             p, "C18.5", [f"{COMMON}.AttrSpec.__set_foreground", f"{COMMON}.AttrSpec.__set_background"], r"^_parse_color_|^index$|^_true_to_256$", floor=2,
@@ -526,6 +575,8 @@ from ..mutants import Mut  # noqa: E402
 
 _C = "urwid/display/common.py"
 MUTANTS = [
+    Mut("repr-omits-truecolor-depth", "urwid/display/common.py", "AttrSpec.__repr__", "if self.colors in {88, 2**24}:", "if self.colors in {88}:", "SIB|display.common.AttrSpec.__repr__|repr omits colors=16777216"),
+    Mut("twin-repr-depth-not-in-basic", "urwid/display/common.py", "AttrSpec.__repr__", "if self.colors in {88, 2**24}:", "if self.colors not in {1, 16, 256}:", twin=True),
     Mut("fold-88-low-digits", "urwid/display/common.py", "_parse_color_88", "            desc = desc[0:2] + desc[3] + desc[5]", "            desc = desc[::2]", "TAINT|display.common._parse_color_88|seven-character fold keeps other positions than 0, 1, 3, 5"),
     Mut("twin-fold-88-stepped-slice", "urwid/display/common.py", "_parse_color_88", "            desc = desc[0:2] + desc[3] + desc[5]", "            desc = desc[0] + desc[1::2]", twin=True),
     Mut("true-colour-foreground-resets-flags", "urwid/display/common.py", "urwid.display.common.AttrSpec.__set_foreground", "                flags |= _FG_TRUE_COLOR\n", "                flags = _FG_TRUE_COLOR\n", "ACCUM|display.common.AttrSpec.__set_foreground|flags reassigned inside the part loop"),
